@@ -9,7 +9,7 @@ META = dict(
     level_text="Machine-checked theorems (coq/Props/C14.v, all FULL, closed under the global context) about the model of SearchImpl and its four lazy iterators "
                "(coq/theories/Search.v search_loop/expand/graph_search, revision with all fix: commits) for every database whose slot graph satisfies the explicit "
                "adjacency hypothesis adj_ok (coq/theories/AdjOk.v: each node's out/in chain ends within the fuel, has no duplicates and enumerates exactly its edges; "
-               "edge endpoints are nodes; decidable checker adj_okb proved sound; to be discharged from the graph invariant of C08), for every existing NODE or EDGE "
+               "edge endpoints are nodes; decidable checker adj_okb proved sound; DISCHARGED by C14_wf_adj_ok / C14_reachable_graphs_adj_ok from the graph invariant wf, which GraphSpec.grun_wf proves for every history of insert_node/insert_edge/remove_node/remove_edge from the empty graph), for every existing NODE or EDGE "
                "as origin, forward and reverse: C14_lazy_eq_eager_bfs / _dfs: the implementation's result equals the textbook eager BFS (queue of (element, distance), "
                "all edges of a dequeued node enqueued newest first, far endpoint of a dequeued edge enqueued, visited test on dequeue) resp. eager DFS (stack) "
                "specification, by a lock-step simulation in which every pending edge item of the lazy work list stands for the remaining sibling chain starting at it; "
@@ -57,9 +57,9 @@ def run(ctx):
              "non-trivial = history that reached a state with >= 2 nodes and an edge"
              % (r["histories"], PROFILE, steps, nodes, edges, scope, s["histories"]),
         failures=failures, disagreements=m["disagreements"],
-        assumptions=["the theorems are stated under the explicit hypothesis adj_ok (gr d) about the slot graph (coq/theories/AdjOk.v: adjacency chains end, are "
-                     "duplicate-free and enumerate exactly a node's edges; edge endpoints are nodes); it is decidable (adj_okb, proved sound), shown for a graph "
-                     "built with the real operations (C14_nonvacuous), and is to be discharged for all reachable states from the graph invariant proved for C08",
+        assumptions=["the theorems are stated for graphs satisfying adj_ok (coq/theories/AdjOk.v); C14_reachable_graphs_adj_ok proves it for every graph produced "
+                     "by a history of the four graph operations from the empty graph (ids passed with the sign of their kind); that DbImpl's query layer only "
+                     "performs such operations is part of the model correspondence, not a separate theorem",
                      "traversals are searches without conditions, limit, offset and ordering (the property's own quantifier); "
                      "conditioned searches are covered only by the differential comparison with the model"],
     )
